@@ -177,6 +177,13 @@ def gen_prop(rng, tier):
          'dexp': rng.choice([6, 7, 8]), 'uexp': rng.choice([16, 17, 18]), 'z': rng.choice(['1', '2', '1/2', '4']),
          'wins': [list(s1), list(s2), [npr, npc]],
          'power': None}
+    t3 = rng.random()
+    if t3 < 0.15:                   # faint / bright wavefronts: every energy statement is scale covariant
+        c['ampscale'] = rng.choice(AMPSCALES)
+    elif t3 < 0.27:                 # the amplitude handed over as an ndarray subclass / another layout with the same data
+        c['container'] = rng.choice(CONTAINERS)
+    if rng.random() < 0.2:          # second leg: image plane back to a pupil plane over one period
+        c['relay'] = True
     if rng.random() < 0.3:          # a segmented pupil: one Field per segment, cropped to the segment's bounding box
         a, seg = apply_seg(rng, c['amp'], m, n)
         if seg is not None:
@@ -285,7 +292,8 @@ def gen_hist(rng, tier):
         calls.append(cl)
     if not any(cl['lamfac'] == '1' for cl in calls):
         calls[rng.randrange(len(calls))]['lamfac'] = '1'
-    return {'op': 'ffthist', 'npix': [npr, npc], 'os': os_, 'aniso': aniso,
+    return {'op': 'ffthist', 'ampscale': rng.choice(AMPSCALES) if rng.random() < 0.2 else None,
+            'npix': [npr, npc], 'os': os_, 'aniso': aniso,
             'dexp': rng.choice([6, 7, 8]), 'uexp': rng.choice([16, 17, 18]), 'z': rng.choice(['1', '2', '1/2', '4']),
             'dirty': rng.random() < 0.5, 'extra': rng.choice([[0, 0], [0, 0], [1, 0], [0, 2], [3, 1]]),
             'calls': calls}
@@ -400,6 +408,37 @@ def gen_tight(rng, want):
     return c
 
 
+AMPSCALES = ['1e-9', '1e-11', '1e-13', '1e-7', '1e6']
+CONTAINERS = ['matrix', 'masked', 'subclass', 'fortran']
+
+
+def gen_planehist(rng):
+    """a history on ONE Pupil object: multiply, change the amplitude (in place through the attribute's array, or through
+    the setter), edit the OPD in place, branch the wavefront through a Tilt and reuse it - each multiply / propagation
+    judged against the arrays the object holds at that moment (oracle only)"""
+    while True:
+        c = gen_prop(rng, 'quick')
+        if alpha_ok(c):
+            break
+    c.pop('power', None)
+    c['op'] = 'planehist'
+    steps = [{'do': 'mul'}]
+    for _ in range(rng.randint(2, 4)):
+        k = rng.choice(['scale_inplace', 'scale_inplace', 'norm_inplace', 'setter', 'opd_inplace', 'branch_tilt', 'tilt_twice', 'mul'])
+        st = {'do': k}
+        if k in ('scale_inplace', 'setter'):
+            st['k'] = rng.choice(['0.5', '2', '3', '0.25', '1.5'])
+        elif k == 'norm_inplace':
+            st['p'] = rng.choice(['1', '2', '0.5', '7'])
+        elif k in ('branch_tilt', 'tilt_twice'):
+            st['fx'], st['fy'] = rng.choice(['0.3', '-0.4', '0.2']), rng.choice(['0.35', '-0.25', '0'])
+        steps.append(st)
+        if k != 'mul':
+            steps.append({'do': 'mul'})
+    c['steps'] = steps
+    return c
+
+
 def gen_segtilt(rng):
     """3-4 segments in a row (or column) carrying different fitted tilts, imaged with small per-segment propagation
     windows (prop_shape): chain / bridge overlap topologies of the windows in every stack order (oracle only)"""
@@ -434,11 +473,15 @@ def gen_segtilt(rng):
 
 def generate(rng, tier):
     n_cases = 110 if tier == 'quick' else 1500
+    for _ in range(25 if tier == 'quick' else 250):
+        yield gen_planehist(rng)
     out = 0
     while out < (30 if tier == 'quick' else 300):
         c = gen_segtilt(rng)
         if not alpha_ok(c):
             continue
+        if rng.random() < 0.2:
+            c['ampscale'] = rng.choice(AMPSCALES)
         out += 1
         yield c
     for k in range(12 if tier == 'quick' else 120):
@@ -493,6 +536,8 @@ def generate(rng, tier):
 
 
 def classify(c):
+    if c['op'] == 'planehist':
+        return 'planehist/' + '-'.join(st['do'] for st in c['steps'] if st['do'] != 'mul')
     if c['op'] == 'segtilt':
         return 'segtilt/%dseg/os%d' % (len(c['segs']), c['os'])
     if c['op'] == 'tight':
@@ -506,11 +551,15 @@ def classify(c):
         return 'ffthist/%s/%s' % ('wide' if q > r else 'tall' if q < r else 'square', 'dirty' if c['dirty'] else 'clean')
     if c['op'] == 'prop':
         return 'prop/os%d/%s/%s%s' % (c['os'], c['aniso'], 'norm' if c.get('power') else 'raw',
-                                      '/history' if c.get('between') else '') + ('/segmented' if c.get('seg') else '')
+                                      '/history' if c.get('between') else '') + ('/segmented' if c.get('seg') else '') \
+            + ('/scaled' if c.get('ampscale') else '') + ('/' + c['container'] if c.get('container') else '') \
+            + ('/relay' if c.get('relay') else '')
     return c['op'] + ('/' + c['dtype'] if c.get('dtype') else '')
 
 
 def nontrivial(c):
+    if c['op'] == 'planehist':
+        return True
     if c['op'] == 'segtilt':
         return True
     if c['op'] == 'tight':
@@ -540,6 +589,8 @@ def supplied_root(q):
 
 
 def encode(c):
+    if c['op'] == 'planehist':
+        return None          # a history on one object: every step is decided by the energy oracle
     if c['op'] == 'segtilt':
         return None          # per-segment tilted windows: decided by the energy oracle
     if c['op'] == 'tight':
@@ -706,7 +757,7 @@ def run_segtilt(lentil, c):
     fdx, fdu, z, lam = (float(dx[0]), float(dx[1])), (float(du[0]), float(du[1])), float(z), float(lam)
     os_ = c['os']
     nr, nc = c['grid']
-    amp = np.array(c['amp'], dtype=float)
+    amp = np.array(c['amp'], dtype=float) * (float(c['ampscale']) if c.get('ampscale') else 1.0)
     mask = np.zeros((len(c['segs']), nr, nc))
     for j, (r0, r1, c0, c1) in enumerate(c['segs']):
         mask[j, r0:r1, c0:c1] = 1
@@ -754,12 +805,115 @@ def oracle_segtilt(c, impl):
     return None
 
 
+class MetaArray(np.ndarray):
+    """an ndarray subclass that carries metadata"""
+    def __array_finalize__(self, obj):
+        self.info = getattr(obj, 'info', None)
+
+
+def in_container(a, cont):
+    if cont == 'matrix':
+        return np.matrix(a)
+    if cont == 'masked':
+        return np.ma.MaskedArray(a, mask=np.zeros(a.shape, dtype=bool))
+    if cont == 'subclass':
+        b = a.view(MetaArray)
+        b.info = {'unit': 'sqrt(W)'}
+        return b
+    if cont == 'fortran':
+        return np.asfortranarray(a)
+    return a
+
+
+def div_energy(x, s2):
+    """divide every energy-like float of a result by the squared amplitude scale (integers are shapes / counts)"""
+    if isinstance(x, float):
+        return x / s2
+    if isinstance(x, list):
+        return [div_energy(v, s2) for v in x]
+    if isinstance(x, dict):
+        return {k: div_energy(v, s2) for k, v in x.items()}
+    return x
+
+
+def full_totals(lentil, c, w, fdu, os_, fft=True):
+    full = (int(c['npix'][0]), int(c['npix'][1]))
+    i1 = lentil.propagate_dft(w, pixelscale=fdu, shape=full, oversample=os_).intensity
+    i3 = lentil.propagate_fft(w, pixelscale=fdu, shape=full, oversample=os_).intensity if fft else i1   # the FFT path refuses tilt
+    return {'dft': float(np.sum(i1)), 'fft': float(np.sum(i3)), 'min': float(min(np.min(i1), np.min(i3)))}
+
+
+def run_planehist(lentil, c, fdx, fdu, z, lam, os_):
+    amp0 = np.array(c['amp'], dtype=float)
+    opd0 = lam * np.array(c['ph'], dtype=float) / c['phden']
+    kw = {'mask': mask_cube(c['seg'])} if c.get('seg') else {}
+    pupil = lentil.Pupil(amplitude=amp0, opd=opd0, pixelscale=fdx, focal_length=z, **kw)
+    cover = mask_cube(c['seg']).sum(axis=0) if c.get('seg') else (amp0 != 0)
+    out = []
+    w = None
+    for st in c['steps']:
+        r = {'do': st['do']}
+        if st['do'] == 'mul':
+            w = lentil.Wavefront(lam) * pupil
+            r['expected'] = float(np.sum(np.abs(np.asarray(pupil.amplitude) * cover) ** 2))     # from the arrays held NOW
+            r['pin_field'] = float(np.sum(np.abs(w.field) ** 2))
+            r.update(full_totals(lentil, c, w, fdu, os_))
+        elif st['do'] == 'scale_inplace':
+            pupil.amplitude[...] *= float(Fraction(st['k']))
+        elif st['do'] == 'norm_inplace':
+            pupil.amplitude[...] = lentil.normalize_power(pupil.amplitude * cover, float(Fraction(st['p'])))
+        elif st['do'] == 'setter':
+            pupil.amplitude = np.asarray(pupil.amplitude) * float(Fraction(st['k']))
+        elif st['do'] == 'opd_inplace':
+            pupil.opd[...] += lam / 8 * ((np.arange(pupil.opd.shape[0])[:, None] + 2 * np.arange(pupil.opd.shape[1])[None, :]) % 8)
+        elif st['do'] in ('branch_tilt', 'tilt_twice'):
+            tx = float(Fraction(st['fx'])) * fdu[0] / (z * os_)
+            ty = float(Fraction(st['fy'])) * fdu[1] / (z * os_)
+            before = full_totals(lentil, c, w, fdu, os_)
+            t = lentil.Tilt(x=tx, y=ty)
+            wt = w * t
+            if st['do'] == 'tilt_twice':
+                wt = wt * t                     # the same Tilt object applied twice
+            r['tilted'] = full_totals(lentil, c, wt, fdu, os_, fft=False)['dft']
+            after = full_totals(lentil, c, w, fdu, os_)          # the shared, untilted wavefront reused afterwards
+            r['before'], r['after'] = before, after
+            r['expected'] = float(np.sum(np.abs(np.asarray(pupil.amplitude) * cover) ** 2))
+        out.append(r)
+    return {'steps': out}
+
+
+def oracle_planehist(c, impl):
+    for k, (st, r) in enumerate(zip(c['steps'], impl['steps'])):
+        hist = [s_['do'] + (':' + s_.get('k', s_.get('p', '')) if s_.get('k') or s_.get('p') else '') for s_ in c['steps'][:k]]
+        where = f'step {k + 1} ({st["do"]}) on one Pupil object after {hist}'
+        if st['do'] == 'mul':
+            e = r['expected']
+            if not close(r['pin_field'], e, 1e-12):
+                return (f'{where}: the wavefront carries sum|field|^2 = {r["pin_field"]!r}, the arrays the pupil holds now '
+                        f'have sum|amplitude*mask|^2 = {e!r}')
+            if r['min'] < 0:
+                return f'{where}: negative intensity sample {r["min"]!r}'
+            for name in ('dft', 'fft'):
+                if not close(r[name], e):
+                    return f'{where}: {name} total over one full period {r[name]!r} differs from the input power {e!r}'
+        elif st['do'] in ('branch_tilt', 'tilt_twice'):
+            e = r['expected']
+            if r['tilted'] < 0 or r['tilted'] > e * (1 + TOL) or not close(r['tilted'], e):
+                return f'{where}: the sub-pixel tilted wavefront images to {r["tilted"]!r} over one full period, input power {e!r}'
+            for name in ('dft', 'fft'):
+                if not close(r['before'][name], r['after'][name]) or not close(r['after'][name], e):
+                    return (f'{where}: the untilted wavefront imaged to {r["before"][name]!r} before and {r["after"][name]!r} '
+                            f'after it was branched through a Tilt ({name} path, input power {e!r})')
+    return None
+
+
 def run_impl(c):
     lentil = C.import_lentil()
     fresh_state(lentil)
     if c['op'] == 'segtilt':
         try:
-            return run_segtilt(lentil, c)
+            r = run_segtilt(lentil, c)
+            return div_energy(r, float(c['ampscale']) ** 2) if c.get('ampscale') else r
         except Exception as e:
             return {'err': type(e).__name__, 'msg': str(e)[:200]}
     if c['op'] == 'tight':
@@ -782,17 +936,25 @@ def run_impl(c):
         lam = float(lam)
         os_ = c['os']
         if c['op'] == 'ffthist':
-            return run_hist(lentil, c, fdx, fdu, float(z), lam, os_)
+            r = run_hist(lentil, c, fdx, fdu, float(z), lam, os_)
+            return div_energy(r, float(c['ampscale']) ** 2) if c.get('ampscale') else r
+        if c['op'] == 'planehist':
+            return run_planehist(lentil, c, fdx, fdu, float(z), lam, os_)
         amp = np.array(c['amp'], dtype=float)
         if c.get('power'):
             amp = lentil.normalize_power(amp, float(Fraction(c['power'])))
+        s_amp = float(c['ampscale']) if c.get('ampscale') else 1.0
+        if s_amp != 1.0:
+            amp = amp * s_amp
+        amp_given = in_container(amp, c.get('container'))
+        amp_keep = np.array(amp, copy=True)
         opd = lam * np.array(c['ph'], dtype=float) / c['phden']
 
         def wavefront(tilt=None, via='plane'):
             if c.get('seg'):
-                pupil = lentil.Pupil(amplitude=amp, opd=opd, mask=mask_cube(c['seg']), pixelscale=fdx, focal_length=float(z))
+                pupil = lentil.Pupil(amplitude=amp_given, opd=opd, mask=mask_cube(c['seg']), pixelscale=fdx, focal_length=float(z))
             else:
-                pupil = lentil.Pupil(amplitude=amp, opd=opd, pixelscale=fdx, focal_length=float(z))
+                pupil = lentil.Pupil(amplitude=amp_given, opd=opd, pixelscale=fdx, focal_length=float(z))
             if tilt is not None and via == 'wavefront':
                 return lentil.Wavefront(lam, tilt=list(tilt)) * pupil
             w_ = lentil.Wavefront(lam) * pupil
@@ -811,7 +973,14 @@ def run_impl(c):
         if c.get('between'):
             res['between'] = [run_between(lentil, c, b, wavefront, fdu, float(z), os_) for b in c['between']]
             res['after'] = window_energies(lentil, c, wavefront(), fdu, os_)
-        return res
+        if c.get('relay'):
+            P = (int(c['npix'][0]) * os_, int(c['npix'][1]) * os_)
+            wi = lentil.propagate_dft(wavefront(), pixelscale=fdu, shape=tuple(c['npix']), oversample=os_)
+            back = lentil.propagate_dft(wi, pixelscale=fdx, shape=P, oversample=1).intensity
+            res['relay'] = {'total': float(np.sum(back)), 'min': float(np.min(back)), 'shape': [int(v) for v in back.shape]}
+        if not np.array_equal(amp_keep, np.asarray(amp_given)):
+            res['input_modified'] = True
+        return div_energy(res, s_amp ** 2) if s_amp != 1.0 else res
     except Exception as e:
         return {'err': type(e).__name__, 'msg': str(e)[:200]}
 
@@ -829,6 +998,9 @@ def fresh_state(lentil):
                         cc()
                     except Exception:
                         pass
+            for k, v in list(vars(mod).items()):          # module-level memo tables
+                if isinstance(v, dict) and 'cache' in k.lower():
+                    v.clear()
 
 
 def window_energies(lentil, c, w, fdu, os_):
@@ -895,7 +1067,7 @@ def run_hist(lentil, c, fdx, fdu, z, lam0, os_):
 
     def wavefront(cl, lam):
         kw = {'mask': mask_cube(cl['seg'])} if cl.get('seg') else {}
-        pupil = lentil.Pupil(amplitude=np.array(cl['amp'], dtype=float),
+        pupil = lentil.Pupil(amplitude=np.array(cl['amp'], dtype=float) * (float(c['ampscale']) if c.get('ampscale') else 1.0),
                              opd=lam * np.array(cl['ph'], dtype=float) / cl['phden'],
                              pixelscale=fdx, focal_length=z, **kw)
         return lentil.Wavefront(lam) * pupil
@@ -905,7 +1077,7 @@ def run_hist(lentil, c, fdx, fdu, z, lam0, os_):
         pin = float(np.sum(np.abs(w.field) ** 2))
         ref = lentil.propagate_fft(wavefront(cl, lam), pixelscale=fdu, oversample=os_).intensity
         out = lentil.propagate_fft(w, pixelscale=fdu, oversample=os_, scratch=scratch).intensity
-        r = {'pin': pin, 'pin_amp': float(np.sum(np.array(cl['amp'], dtype=float) ** 2)),
+        r = {'pin': pin, 'pin_amp': float(np.sum((np.array(cl['amp'], dtype=float) * (float(c['ampscale']) if c.get('ampscale') else 1.0)) ** 2)),
              'ref': float(np.sum(ref)), 'out': float(np.sum(out)),
              'shape_ref': list(ref.shape), 'shape_out': list(out.shape),
              'min': float(min(np.min(ref), np.min(out)))}
@@ -981,6 +1153,8 @@ def oracle(c, impl):
         return oracle_tight(c, impl)
     if c['op'] == 'segtilt':
         return oracle_segtilt(c, impl)
+    if c['op'] == 'planehist':
+        return oracle_planehist(c, impl)
     if c['op'] == 'normalize':
         p = float(Fraction(c['power']))
         if abs(impl['power'] - p) > (1e-6 if c.get('dtype') == 'float32' else 1e-12) * (1 + p):
@@ -993,9 +1167,16 @@ def oracle(c, impl):
     if not close(pin, impl['pin_field'], 1e-12) or not close(pin, impl['pin_intensity'], 1e-12):
         return (f'pupil-plane power: sum|amplitude*mask*phasor|^2 = {pin!r}, sum|Wavefront.field|^2 = {impl["pin_field"]!r}, '
                 f'sum intensity = {impl["pin_intensity"]!r}')
+    if impl.get('input_modified'):
+        return 'the amplitude array handed to Pupil was modified'
     msg = window_predicates(c, impl, pin, p, '')
     if msg:
         return msg
+    if c.get('relay'):
+        r = impl['relay']
+        if r['min'] < 0 or not close(r['total'], pin):
+            return (f'second leg (image plane back to a pupil plane over one period {r["shape"]}): total {r["total"]!r}, '
+                    f'minimum {r["min"]!r}, input power {pin!r}')
     if c.get('masks'):
         msg = oracle_masks(c, impl['masks'], pin)
         if msg:
